@@ -183,6 +183,13 @@ class MindsDBParser(Parser):
     def create_chat_bot(self, p):
         params = p.kw_parameter_list
 
+        if 'database' not in params:
+            raise ParsingException("CREATE CHATBOT requires the 'database' parameter")
+        for key in ('database', 'model', 'agent'):
+            value = params.get(key)
+            if value is not None and (not isinstance(value, str) or value == ''):
+                raise ParsingException(f"CREATE CHATBOT parameter '{key}' must be a non-empty string, got: {value}")
+
         database = Identifier(params.pop('database'))
         model_param = params.pop('model', None)
         agent_param = params.pop('agent', None)
